@@ -97,6 +97,10 @@ func (v *FnView) predicateAtoms(cond ssa.Value, taken bool) []Atom {
 		}
 		cond, taken = u.X, !taken
 	}
+	ridx := 0
+	if ex, isEx := cond.(*ssa.Extract); isEx { // `name, isConfig := tomlFileName(x); if isConfig`: one bool of several results
+		cond, ridx = ex.Tuple, ex.Index
+	}
 	call, ok := cond.(*ssa.Call)
 	if !ok || call.Call.IsInvoke() {
 		return nil
@@ -106,7 +110,7 @@ func (v *FnView) predicateAtoms(cond ssa.Value, taken bool) []Atom {
 		return nil
 	}
 	res := callee.Signature.Results()
-	if res.Len() != 1 || !isBoolType(res.At(0).Type()) || len(callee.Params) != len(call.Call.Args) {
+	if ridx >= res.Len() || (res.Len() != 1 && ridx == 0 && cond != call) || !isBoolType(res.At(ridx).Type()) || len(callee.Params) != len(call.Call.Args) {
 		return nil
 	}
 	pt := map[*ssa.Parameter]*Term{}
@@ -119,7 +123,7 @@ func (v *FnView) predicateAtoms(cond ssa.Value, taken bool) []Atom {
 	}
 	var cands []*Path
 	for _, p := range paths {
-		if p.End != "return" || len(p.Ret) != 1 {
+		if p.End != "return" || len(p.Ret) != res.Len() {
 			return nil // a panicking or cut path: not a plain predicate
 		}
 		for _, e := range p.Effects {
@@ -130,7 +134,7 @@ func (v *FnView) predicateAtoms(cond ssa.Value, taken bool) []Atom {
 				return nil
 			}
 		}
-		if k, isK := p.Ret[0].IsConst(); isK {
+		if k, isK := p.Ret[ridx].IsConst(); isK {
 			if k.Kind() == constant.Bool && constant.BoolVal(k) == taken {
 				cands = append(cands, p)
 			}
@@ -145,8 +149,8 @@ func (v *FnView) predicateAtoms(cond ssa.Value, taken bool) []Atom {
 	for _, a := range cands[0].Atoms {
 		out = append(out, Atom{Cond: a.Cond, Taken: a.Taken, Fn: v.fn})
 	}
-	if _, isK := cands[0].Ret[0].IsConst(); !isK {
-		out = append(out, Atom{Cond: cands[0].Ret[0], Taken: taken, Fn: v.fn})
+	if _, isK := cands[0].Ret[ridx].IsConst(); !isK {
+		out = append(out, Atom{Cond: cands[0].Ret[ridx], Taken: taken, Fn: v.fn})
 	}
 	return out
 }
